@@ -4,7 +4,9 @@ Property C01, specification side on the level of TYPED attributes:
 * `AttrC` / `TContent`: an abstract UPDATE content whose attributes are typed
   values (the 20 kinds of `path_attributes!`, AS paths also as wire segment
   lists), attributes of unrecognised type, MP_REACH_NLRI / MP_UNREACH_NLRI
-  given as (family, next hop, NLRI list with path ids);
+  given as (family, next hop, reserved octet, NLRI list with path ids), and
+  MP_REACH_NLRI / MP_UNREACH_NLRI of an UNSUPPORTED (AFI, SAFI) given as the
+  opaque octets they carry;
 * `encUpdateT`: the reference encoder of such a content for a session
   configuration (ASN width, ADD-PATH per family) – RFC 4271 4.3 / 4760 / 6793 /
   7911 framing over the typed value composers of C04 (`Rc.Attr.composeValue`),
@@ -52,15 +54,23 @@ inductive AttrC where
   | path (fl : UInt8) (as4 : Bool) (ss : List AsPath.Seg)
   /-- an attribute of a type code routecore has no type for -/
   | raw (fl tc : UInt8) (v : Bytes)
-  /-- MP_REACH_NLRI: family, next-hop field, NLRI with their path ids -/
-  | reach (fl : UInt8) (f : Fam) (nh : Bytes) (nlri : List (Nat × f.Val))
+  /-- MP_REACH_NLRI: family, next-hop field, the reserved octet as sent (RFC 4760
+  3: "MUST be set to 0, and SHOULD be ignored upon receipt"), NLRI with their path ids -/
+  | reach (fl : UInt8) (f : Fam) (nh : Bytes) (rsv : UInt8) (nlri : List (Nat × f.Val))
   /-- MP_UNREACH_NLRI -/
   | unreach (fl : UInt8) (f : Fam) (nlri : List (Nat × f.Val))
+  /-- MP_REACH_NLRI of an (AFI, SAFI) `k` routecore has no NLRI type for
+  (`AfiSafiType::Unsupported`): next-hop field, reserved octet, and the octets
+  after it as they are (opaque: there is no rule to read them by) -/
+  | reachU (fl : UInt8) (k : Nat × Nat) (nh : Bytes) (rsv : UInt8) (body : Bytes)
+  /-- MP_UNREACH_NLRI of an unsupported (AFI, SAFI): the octets after AFI/SAFI as they are -/
+  | unreachU (fl : UInt8) (k : Nat × Nat) (body : Bytes)
 
 namespace AttrC
 
 def fl : AttrC → UInt8
-  | typed fl _ => fl | path fl _ _ => fl | raw fl _ _ => fl | reach fl _ _ _ => fl | unreach fl _ _ => fl
+  | typed fl _ => fl | path fl _ _ => fl | raw fl _ _ => fl | reach fl _ _ _ _ => fl | unreach fl _ _ => fl
+  | reachU fl _ _ _ _ => fl | unreachU fl _ _ => fl
 
 def code : AttrC → Nat
   | typed _ a => a.code
@@ -68,15 +78,17 @@ def code : AttrC → Nat
   | raw _ tc _ => tc.toNat
   | reach .. => 14
   | unreach .. => 15
+  | reachU .. => 14
+  | unreachU .. => 15
 
 /-- the value octets under a session configuration -/
 def value (cfg : Cfg) : AttrC → Outcome Bytes
   | typed _ a => typedValue cfg.four a
   | path _ as4 ss => .ok (encSegsW (as4 || cfg.four) ss)
   | raw _ _ v => .ok v
-  | reach _ f nh nlri =>
+  | reach _ f nh rsv nlri =>
     match encNlris f (cfg.rx (famCode f)) nlri with
-    | .ok b => .ok (reachValue f nh b)
+    | .ok b => .ok (mpReachValue (famCode f) nh rsv b)
     | .err => .err
     | .panic => .panic
   | unreach _ f nlri =>
@@ -84,6 +96,8 @@ def value (cfg : Cfg) : AttrC → Outcome Bytes
     | .ok b => .ok (unreachValue f b)
     | .err => .err
     | .panic => .panic
+  | reachU _ k nh rsv body => .ok (mpReachValue k nh rsv body)
+  | unreachU _ k body => .ok (mpUnreachValue k body)
 
 /-- flags, type code, value: what goes on the wire -/
 def lower (cfg : Cfg) (a : AttrC) : Outcome RawAttr :=
